@@ -69,7 +69,6 @@ template <class T> static JobResult run_job_T(unsigned kind, const uint8_t *d, s
         if (e.ilu) { IluOpts io = gen_ilu_opts(c); if ((io.droprule & DROP_SECONDARY) && known.count("F-ILU-WORK2")) io.droprule |= DROP_INTERP; ilu_set_default_options(&e.so); apply_opts(o, e.so); apply_ilu(io, e.so); e.so.IterRefine = NOREFINE; }
         else { apply_opts(o, e.so); e.so.IterRefine = SLU_DOUBLE; }
         e.so.ConditionNumber = YES; e.so.PivotGrowth = YES; e.so.ColPerm = o.colperm == MY_PERMC ? MMD_ATA : o.colperm;
-        if (e.ilu && known.count("F-ILU") && ilu_probe_breakdown(e)) { e.so.ConditionNumber = NO; e.so.PivotGrowth = NO; e.nrhs = 0; }   // known class: factor only
         e.bind();
         jr.aborted = e.call(); jr.info = e.info;
         if (!jr.aborted) {
